@@ -166,6 +166,12 @@ func (h transactionsResourceHandler) Expand(_ common.ResourceQuery[any], propert
 	if property != "effectiveVolumes" {
 		return nil, nil, nil
 	}
+	if !h.store.ledger.HasFeature(features.FeatureMovesHistory, "ON") {
+		return nil, nil, common.NewErrInvalidQuery("feature %s must be 'ON' to use effectiveVolumes", features.FeatureMovesHistory)
+	}
+	if !h.store.ledger.HasFeature(features.FeatureMovesHistoryPostCommitEffectiveVolumes, "SYNC") {
+		return nil, nil, common.NewErrInvalidQuery("feature %s must be 'SYNC' to use effectiveVolumes", features.FeatureMovesHistoryPostCommitEffectiveVolumes)
+	}
 
 	ret := h.store.db.NewSelect().
 		TableExpr(
